@@ -31,6 +31,7 @@ Vote contents are drawn from a case-local seed and never sent to the model (the 
 every `rounds` case is run twice with different vote contents and must give identical results.
 """
 import itertools, random
+from fractions import Fraction
 from ..core import impl_call, err_kind, fr
 
 NAME = "sampling"
@@ -63,10 +64,27 @@ def _K(n):
     return 4 * (n + 1) ** 2
 
 
+# `num_scale` = [D, kind] of the current case: the sample numbers handed to the code are k/D (D a power of two, k < 2**50:
+# exact) as floats or Fractions -- `sample_num` and `sample_threshold` are documented as floats (SHA256.random() gives
+# values in [0,1)) and are only ever compared; the model and the oracles work with the integers k
+_SCALE = [1, "int"]
+
+
+def _num(k):
+    D, kind = _SCALE
+    if D == 1 or not isinstance(k, int) or isinstance(k, bool):
+        return k
+    return Fraction(k, D) if kind == "fraction" else k / D
+
+
+def _unnum(t):
+    return int(Fraction(t) * _SCALE[0])
+
+
 def _mk_cvrs(cards, vseed):
     from shangrla.core.Audit import CVR
     rng = random.Random(vseed)
-    return [CVR(id=f"c{i}", votes=_votes(rng, cd["styles"]), phantom=bool(cd["phantom"]), sample_num=int(cd["num"]))
+    return [CVR(id=f"c{i}", votes=_votes(rng, cd["styles"]), phantom=bool(cd["phantom"]), sample_num=_num(int(cd["num"])))
             for i, cd in enumerate(cards)]
 
 
@@ -75,7 +93,8 @@ def _mk_contests(contests, use_style=True, audit_type=None):
     d = {}
     for con in contests:
         d[con["id"]] = {"id": con["id"], "sample_size": con.get("size", 0),
-                        "sample_threshold": (None if con.get("thr") is None else int(con["thr"])),
+                        "sample_threshold": (None if con.get("thr") is None else
+                                             (_num(con["thr"]) if isinstance(con["thr"], int) else con["thr"])),
                         "use_style": use_style, "risk_limit": 0.05,
                         "audit_type": audit_type or Audit.AUDIT_TYPE.CARD_COMPARISON}
     return Contest.from_dict_of_dicts(d)
@@ -161,7 +180,7 @@ def _mk_mvrs(n, cids, vseed, cards=None):
 
 def _thr(con):
     t = con.sample_threshold
-    return None if t is None else str(int(t))
+    return None if t is None else str(_unnum(t))
 
 
 def _run_history(case, vseed):
@@ -227,6 +246,14 @@ def _run_history(case, vseed):
 # impl per kind
 
 def impl(case):
+    _SCALE[:] = case.get("num_scale") or [1, "int"]
+    try:
+        return _impl(case)
+    finally:
+        _SCALE[:] = [1, "int"]
+
+
+def _impl(case):
     k = case["kind"]
     if k == "rounds":
         a = _run_history(case, case["vseed"])
@@ -596,9 +623,17 @@ def gen_rounds(rng, n=None, ncon=None, nr=None, malformed=None):
         rounds[r]["sizes"] = [rng.randint(0, max(0, s)) for s in rounds[r - 1]["sizes"]]
     if rng.chance(0.4):
         _vary_mvrs(rng, cards, cids)
-    return {"kind": "rounds", "use_style": (malformed != "nostyle"), "cards": cards,
+    case = {"kind": "rounds", "use_style": (malformed != "nostyle"), "cards": cards,
             "contests": [{"id": c, "size": 0, "thr": None} for c in cids], "rounds": rounds,
             "vseed": rng.randint(0, 10 ** 6)}
+    return _with_scale(rng, case)
+
+
+def _with_scale(rng, case):
+    """fractional sample numbers k/D (floats or Fractions) in 1 case in 5 whose numbers are small"""
+    if all(isinstance(cd["num"], int) and 0 <= cd["num"] < 2 ** 50 for cd in case["cards"]) and rng.chance(0.2):
+        case["num_scale"] = [rng.choice([2, 4, 64, 1024, 2 ** 20]), rng.choice(["float", "float", "fraction"])]
+    return case
 
 
 def _vary_mvrs(rng, cards, cids):
@@ -667,7 +702,7 @@ def gen_cs(rng):
             prev.append(rng.choice(prev))
         if mode == "range":
             prev.append(n + rng.randint(0, 2))
-    return {"kind": "cs", "cards": cards, "contests": cons, "prev": prev, "vseed": rng.randint(0, 10 ** 6)}
+    return _with_scale(rng, {"kind": "cs", "cards": cards, "contests": cons, "prev": prev, "vseed": rng.randint(0, 10 ** 6)})
 
 
 def gen_assign(rng):
